@@ -134,6 +134,64 @@ def replay(w):
             if alive > 0:
                 return {'reproduced': True, 'signature': 'worker-processes-left-behind-after-failure', 'observed': obs}
             return {'reproduced': False, 'signature': None, 'observed': obs}
+        if kind == 'donor_budget':
+            from fast_ticc import cluster_label_assignment as cla, cluster_maintenance as cm
+            K, m, sizes, joint = int(nt['K']), int(nt['m']), [int(x) for x in nt['sizes']], bool(nt.get('joint'))
+            P = sum(sizes)
+            needy = [k for k in range(K) if sizes[k] < 2]
+            offered = sum(sz // m - 1 for sz in sizes if sz >= 2 * m)
+            must_raise = offered < len(needy)
+            blocks = [k for k in range(K) for _ in range(sizes[k])]
+            rng = np.random.default_rng(11)
+            data = rng.standard_normal((P, 1)) + np.arange(P).reshape(-1, 1)
+            real_pred, real_init, real_repop = cla.predict_cluster_labels, cla.build_initial_clusters, \
+                cm.repopulate_empty_clusters
+            state = {'round': 0, 'repop_calls': 0}
+
+            def pred(model, d):
+                out = real_pred(model, d)
+                if state['round'] == 0:
+                    out.point_labels = list(blocks)
+                state['round'] += 1
+                return out
+
+            def repop(model):
+                state['repop_calls'] += 1
+                return real_repop(model)
+            cla.predict_cluster_labels = pred
+            cla.build_initial_clusters = lambda k, d: [i % k for i in range(len(d))]
+            cm.repopulate_empty_clusters = repop
+            before = len(_children())
+            res = raised = None
+            try:
+                kw = dict(window_size=1, num_clusters=K, iteration_limit=2, min_cluster_size=m, sparsity_weight=0.1,
+                          label_switching_cost=1.0, biased_covariance=True)
+                if joint:
+                    cut = max(1, P // 2)
+                    res = fast_ticc.ticc_joint_labels([data[:cut], data[cut:]], **kw)
+                else:
+                    res = fast_ticc.ticc_labels(data, **kw)
+            except BaseException as exc:
+                raised = exc
+            finally:
+                cla.predict_cluster_labels, cla.build_initial_clusters = real_pred, real_init
+                cm.repopulate_empty_clusters = real_repop
+            time.sleep(0.2)
+            alive = len(_children()) - before
+            obs = {'sizes': sizes, 'm': m, 'must_raise': must_raise, 'raised': repr(raised),
+                   'returned_result': res is not None, 'live_children_after_call': alive}
+            if state['repop_calls'] == 0:
+                return {'reproduced': False, 'signature': None, 'observed': dict(obs, note='repopulation never reached')}
+            clear = isinstance(raised, RuntimeError) and 'donor' in str(raised).lower()
+            if must_raise and res is not None:
+                return {'reproduced': True, 'signature': 'donor-shortage-returns-a-result', 'observed': obs}
+            if must_raise and not clear:
+                return {'reproduced': True, 'signature': 'donor-shortage-not-a-clear-runtime-error', 'observed': obs}
+            if not must_raise and clear:
+                return {'reproduced': True, 'signature': 'donor-error-although-donors-suffice', 'observed': obs}
+            if raised is not None and alive > 0:
+                return {'reproduced': True, 'signature': 'worker-processes-left-behind-after-failure', 'observed': obs}
+            return {'reproduced': False, 'signature': None, 'observed': obs}
         if kind == 'wrong_input':
             a = np.zeros((5, 1))
             msgs = []
